@@ -14,6 +14,34 @@ Lemma const_cpd_eval k c (a : node -> nat) :
   cpd_eval (const_cpd k c) a = cpd_eval c (fun x => a (rename_node k x)).
 Proof. unfold cpd_eval, const_cpd. cbn [cvar cpars ccard cpcards cvals map]. rewrite map_map. reflexivity. Qed.
 
+(* ------------------------------------------------------------------ add_edges_from and rejected edges *)
+Lemma add_edges_err es c :
+  fold_left (fun r e => rbind r (fun g' => dbn_add_edge g' e)) es (Err c) = Err c.
+Proof. induction es as [|e es IH]; [reflexivity|]. cbn [fold_left rbind]. exact IH. Qed.
+Lemma add_edges_cons g e r :
+  dbn_add_edges g (e :: r) = rbind (dbn_add_edge g e) (fun g' => dbn_add_edges g' r).
+Proof.
+  unfold dbn_add_edges. cbn [fold_left rbind]. destruct (dbn_add_edge g e); cbn [rbind]; [reflexivity|apply add_edges_err].
+Qed.
+Lemma add_edges_partial_ok es : forall g g',
+  dbn_add_edges g es = Ok g' -> dbn_add_edges_partial g es = (g', true).
+Proof.
+  induction es as [|e es IH]; intros g g' H.
+  - unfold dbn_add_edges in H. cbn in H. inversion H. reflexivity.
+  - rewrite add_edges_cons in H. cbn [dbn_add_edges_partial]. destruct (dbn_add_edge g e) as [g1|c]; [|discriminate].
+    cbn [rbind] in H. apply IH. exact H.
+Qed.
+Lemma add_edges_partial_rejected es1 : forall g g1 e c es2,
+  dbn_add_edges g es1 = Ok g1 -> dbn_add_edge g1 e = Err c ->
+  dbn_add_edges_partial g (es1 ++ e :: es2) = (g1, false) /\ dbn_add_edges g (es1 ++ e :: es2) = Err c.
+Proof.
+  induction es1 as [|x es1 IH]; intros g g1 e c es2 H He.
+  - unfold dbn_add_edges in H. cbn in H. inversion H; subst. cbn [app dbn_add_edges_partial].
+    rewrite add_edges_cons, He. split; reflexivity.
+  - rewrite add_edges_cons in H. cbn [app dbn_add_edges_partial]. rewrite add_edges_cons.
+    destruct (dbn_add_edge g x) as [g2|c2]; [|discriminate]. cbn [rbind] in *. apply IH; assumption.
+Qed.
+
 (* ------------------------------------------------------------------ initialize_initial_state *)
 Definition copy_of (c c' : cpd) : Prop :=
   cvar c' = flip (cvar c) /\ cpars c' = map flip (cpars c) /\ ccard c' = ccard c /\ cpcards c' = cpcards c /\
